@@ -493,7 +493,49 @@ def m_pop_first(trees):
     return "if_struct" if done == 3 else None
 
 
-MUTANTS = [m_fold_to_last_writer, m_meet_to_last, m_own_to_other, m_list_to_set, m_adjacency_sets, m_update_to_append, m_key_id, m_pop_first]
+def m_compute_end_raw(trees):
+    """Interval.compute_end: for node in sorted(self.content, key=...) -> for node in self.content"""
+    f = _func(trees[PKG_DIR + "node.py"], "Interval.compute_end")
+    for n in ast.walk(f) if f else ():
+        if isinstance(n, ast.For) and isinstance(n.iter, ast.Call) and isinstance(n.iter.func, ast.Name) and n.iter.func.id == "sorted" and n.iter.args:
+            n.iter = n.iter.args[0]
+            return "compute_end"
+    return None
+
+
+def m_merge_key_id(trees):
+    """MergeNodes: sorted(lpreds, key=lambda n: n.num) -> sorted(lpreds, key=lambda n: id(n))"""
+    f = _func(trees[PKG_DIR + "control_flow.py"], "short_circuit_struct.MergeNodes")
+    for n in ast.walk(f) if f else ():
+        if isinstance(n, ast.For) and isinstance(n.iter, ast.Call) and isinstance(n.iter.func, ast.Name) and n.iter.func.id == "sorted":
+            for k in n.iter.keywords:
+                if k.arg == "key":
+                    k.value = ast.parse("lambda n: id(n)", mode="eval").body
+                    return "MergeNodes"
+    return None
+
+
+def m_used_vars_set(trees):
+    """BinaryExpression.get_used_vars: list(dict.fromkeys(v)) -> list(frozenset(v))"""
+    f = _func(trees[PKG_DIR + "instruction.py"], "BinaryExpression.get_used_vars")
+    for n in ast.walk(f) if f else ():
+        if isinstance(n, ast.Call) and isinstance(n.func, ast.Attribute) and n.func.attr == "fromkeys":
+            n.func = ast.Name(id="frozenset", ctx=ast.Load())
+            return "get_used_vars"
+    return None
+
+
+def m_declare_set(trees):
+    """Writer.visit_node: for var in node.var_to_declare -> for var in set(node.var_to_declare)"""
+    f = _func(trees[PKG_DIR + "writer.py"], "Writer.visit_node")
+    for n in ast.walk(f) if f else ():
+        if isinstance(n, ast.For) and isinstance(n.iter, ast.Attribute) and n.iter.attr == "var_to_declare":
+            n.iter = ast.Call(func=ast.Name(id="set", ctx=ast.Load()), args=[n.iter], keywords=[])
+            return "visit_node"
+    return None
+
+
+MUTANTS = [m_compute_end_raw, m_merge_key_id, m_used_vars_set, m_declare_set, m_fold_to_last_writer, m_meet_to_last, m_own_to_other, m_list_to_set, m_adjacency_sets, m_update_to_append, m_key_id, m_pop_first]
 
 
 def b_rename_local(trees):
@@ -546,7 +588,19 @@ def b_copy_as_list(trees):
     return None
 
 
-BENIGN = [b_rename_local, b_sorted_fix, b_reorder, b_len_list, b_copy_as_list]
+def b_tuple_key(trees):
+    """sorted(S, key=lambda n: n.num) -> key=lambda n: (n.num, n.name)"""
+    f = _func(trees[PKG_DIR + "node.py"], "Interval.compute_end")
+    for n in ast.walk(f) if f else ():
+        if isinstance(n, ast.Call) and isinstance(n.func, ast.Name) and n.func.id == "sorted":
+            for k in n.keywords:
+                if k.arg == "key":
+                    k.value = ast.parse("lambda n: (n.num, n.name)", mode="eval").body
+                    return "tuple key"
+    return None
+
+
+BENIGN = [b_tuple_key, b_rename_local, b_sorted_fix, b_reorder, b_len_list, b_copy_as_list]
 
 
 def _mutated(ctx, edit):
